@@ -723,7 +723,11 @@ fn gen_plain_ops(ch: &mut Choices, cfg: &Cfg, n: usize) -> Vec<EOp> {
                 }
                 _ => {
                     if cfg.version >= 5 && ch.bool() {
-                        MOp::Addrx(ch.below(3) as u64, false)
+                        if ch.bool() {
+                            MOp::Addrx(ch.below(3) as u64, false)
+                        } else {
+                            MOp::Constx(ch.below(3) as u64, false)
+                        }
                     } else {
                         MOp::Deref
                     }
@@ -740,7 +744,8 @@ pub fn gen_ref_expr(ch: &mut Choices, cfg: &Cfg, ui: usize, same_unit: &mut dyn 
     let k = ch.below(3);
     for _ in 0..k {
         let at = ch.below(v.len() + 1);
-        let op = match ch.below(11) {
+        let op = match ch.below(12) {
+            11 => EOp::VariableValue(any_unit(ch)),
             0 => EOp::Call(same_unit(ch), true),
             1 => EOp::Call(same_unit(ch), false),
             2 => EOp::CallRef(any_unit(ch)),
